@@ -526,7 +526,8 @@ def run(case, drv):
                     if len(cm["groove"]) != len(ci["groove"]) or any(not close(a, F(b)) for a, b in zip(ci["groove"], cm["groove"])):
                         agree = False
                     e, md = cmp_notes(ci["notes"], jnotes(cm["notes"]))
-                    maxdev = max(maxdev, md)
+                    if e:
+                        maxdev = max(maxdev, md)
                     if not e:
                         agree = False
                     bi = canon_bpms(ci["bpms"])
@@ -581,7 +582,8 @@ def run(case, drv):
                             ok = False
                             why.append("chart %d radar" % n)
                         e, md = cmp_notes(ci["notes"], jnotes(cd["notes"]))
-                        maxdev = max(maxdev, md)
+                        if e:
+                            maxdev = max(maxdev, md)
                         if not e:
                             ok = False
                             why.append("chart %d objects (column / kind / ms position / length)" % n)
